@@ -142,6 +142,73 @@ theorem dag_ready_order_independent {V : Type} (b b' : List (CTask V)) (hp : b.P
     dagReady ctrlPreds (depsOf b k) = dagReady ctrlPreds (depsOf b' k) :=
   dagReady_perm (depsOf_perm hp k)
 
+/-! ## eager execution (Workflow): what is collected when the run returns
+
+  Reference engine `eRun` (Model part 4): one completion at a time in an arbitrary
+  completion priority `order`, successors submitted at once, the run returns when END is ready.
+
+  Full clause of the property ("every node execution that was started is collected"):
+      ∀ g order, eEndReady g (eRun g order) = true → eUncollected (eRun g order) = []
+  It does NOT hold for the engine as implemented (`eager_uncollected_witness`, replayed on the
+  real code by the harness: known finding).  Proved instead: per node, under the hypothesis
+  that the node has a path to END. -/
+
+/-- **eager_no_early_return.** For every completion order: when the eager run returns (END is
+    ready), every started node that has a path to END has been collected — the run does not
+    return before the nodes feeding END have finished and been handed back. -/
+theorem eager_no_early_return (g : GCase) (hk : (g.nodes.map (·.key)).Nodup)
+    (hs : ∀ n ∈ g.nodes, n.key ≠ startKey) (order : List Key)
+    (hready : eEndReady g (eRun g order) = true) :
+    ∀ k ∈ (eRun g order).started, Reaches g k → k ∈ (eRun g order).done := by
+  intro k _ hr
+  apply Classical.byContradiction
+  intro hnd
+  have := not_ready_of_reaches (einv_run hk hs order) hr hnd
+  rw [this] at hready; cases hready
+
+/-- **eager_collects_all_partial.** If every node has a path to END, then for every completion
+    order nothing started is left uncollected when the eager run returns. -/
+theorem eager_collects_all_partial (g : GCase) (hk : (g.nodes.map (·.key)).Nodup)
+    (hs : ∀ n ∈ g.nodes, n.key ≠ startKey) (hall : ∀ n ∈ g.nodes, Reaches g n.key)
+    (order : List Key) (hready : eEndReady g (eRun g order) = true) :
+    eUncollected (eRun g order) = [] := by
+  have hI := einv_run hk hs order
+  simp only [eUncollected, List.filter_eq_nil_iff]
+  intro k hkst
+  have hd : k ∈ (eRun g order).done := by
+    rcases hI.startedNode k hkst with rfl | ⟨n, hn, rfl⟩
+    · exact hI.startDone
+    · exact eager_no_early_return g hk hs order hready n.key hkst (hall n hn)
+  simp [hd]
+
+/-- the known finding at model level: START→a1→END, START→s1 (no path to END) -/
+def deadEndCase : GCase :=
+  { nodes := [⟨"a1", ["start"]⟩, ⟨"s1", ["start"]⟩], endPreds := ["a1"], input := "x" }
+
+/-- **eager_uncollected_witness** (negation of the full clause). A well-formed graph and a
+    completion order in which the eager run returns while a started node has not been
+    collected; with the other order the same node is collected. -/
+theorem eager_uncollected_witness :
+    (deadEndCase.nodes.map (·.key)).Nodup ∧ (∀ n ∈ deadEndCase.nodes, n.key ≠ startKey) ∧
+    eEndReady deadEndCase (eRun deadEndCase ["a1", "s1"]) = true ∧
+    eUncollected (eRun deadEndCase ["a1", "s1"]) = ["s1"] ∧
+    eUncollected (eRun deadEndCase ["s1", "a1"]) = [] := by decide
+
+/-- non-vacuity of `eager_collects_all_partial`: a graph where every node reaches END -/
+example : let g : GCase := { nodes := [⟨"a1", ["start"]⟩, ⟨"a2", ["start"]⟩, ⟨"b1", ["a1", "a2"]⟩],
+                             endPreds := ["b1"], input := "x" }
+    (∀ n ∈ g.nodes, Reaches g n.key) ∧ eEndReady g (eRun g ["a2", "a1", "b1"]) = true ∧
+    (eRun g ["a2", "a1", "b1"]).done = ["start", "a2", "a1", "b1"] := by
+  intro g
+  have hb : Reaches g "b1" := .direct (by decide)
+  refine ⟨?_, by decide, by decide⟩
+  intro n hn
+  simp only [g, List.mem_cons, List.not_mem_nil, or_false] at hn
+  rcases hn with rfl | rfl | rfl
+  · exact .via (n := ⟨"b1", ["a1", "a2"]⟩) (by simp [g]) (by simp) hb
+  · exact .via (n := ⟨"b1", ["a1", "a2"]⟩) (by simp [g]) (by simp) hb
+  · exact hb
+
 /-! ## non-vacuity -/
 
 /-- a non-trivial reachable state (batch mode: first task inline, two goroutines, one
